@@ -534,7 +534,9 @@ func (c17) Execute(sc core.Script, keep bool) *core.Result {
 		})
 	}
 	setCurrentSched(sch)
-	finished := sch.Run(fns, s.First, 60*time.Second)
+	// real-time bound against a task that blocks on something the scheduler does not own;
+	// generous (crowds of a hundred tasks under the race detector on a loaded machine)
+	finished := sch.Run(fns, s.First, 60*time.Second+time.Duration(len(fns))*3*time.Second)
 	setCurrentSched(nil)
 	res.Steps = int(sch.Count())
 	if !finished {
@@ -707,7 +709,7 @@ func c17Explicit(s *c17Script) *c17Script {
 			})
 		}
 		setCurrentSched(sch)
-		sch.Run(fns, c.First, 60*time.Second)
+		sch.Run(fns, c.First, 60*time.Second+time.Duration(len(fns))*3*time.Second)
 		setCurrentSched(nil)
 		sw, ends = sch.Rec, sch.RecEnds
 	})
